@@ -339,6 +339,12 @@ func c08Cleanup(c *core.Ctx) {
 		for _, cc := range closes {
 			ok = ok && g.Dominates(cln.Loc, cc.Loc)
 		}
+		// cleanup is unconditional: whatever the candidate's state, the session must stop being marked as upgrading
+		if ok {
+			for _, r := range returnsIn(ex.unit) {
+				ok = ok && g.Dominates(cln.Loc, r.Loc)
+			}
+		}
 		c.Check(R, keyf("%s$%s/cleanup≺candidate.Close", sockUpgrade, ex.key), ex.unit.Pos(), ok, keyf("cleanup first, then Close on the candidate only (%d other closes)", bad))
 	}
 	// onTransportClose and onClose delegate to onError
